@@ -139,7 +139,7 @@ def run(st, tier, seed):
                 "keyword) of generated programs and of the repository's example programs, applied to one file of the program; every "
                 "unmutated program is checked too; non-trivial = a mutant the compiler accepts; distinct by mutated text")
     rng = core.rng_for(seed, "c09")
-    n_prog = 25 if tier == "quick" else 400
+    n_prog = 25 if tier == "quick" else 300
     n_mut = 40 if tier == "quick" else 150
     examples = json.load(open(os.path.join(core.CORPUS, "examples.json")))
     n_ex = 12 if tier == "quick" else len(examples)
@@ -190,10 +190,10 @@ def run(st, tier, seed):
             rel0 = rng.choice(sorted(x for x in b.texts if x.endswith(".comp")) or sorted(b.texts))
             redefs = all_redefinitions(b.texts[rel0])
             rng.shuffle(redefs)
-            muts += [(rel0, mt, what) for mt, what in redefs[:60 if tier == "quick" else 400]]
+            muts += [(rel0, mt, what) for mt, what in redefs[:60 if tier == "quick" else 250]]
             swaps = all_number_swaps(b.texts[rel0])
             rng.shuffle(swaps)
-            muts += [(rel0, mt, what) for mt, what in swaps[:40 if tier == "quick" else 300]]
+            muts += [(rel0, mt, what) for mt, what in swaps[:40 if tier == "quick" else 150]]
             for rel, mt, what in muts:
                 if mt == b.texts[rel]:
                     continue
@@ -214,7 +214,7 @@ def run(st, tier, seed):
                     if len(res.samples) < 2:
                         res.sample({"mutation": what, "file": rel, "accepted": True})
     # more UNMUTATED programs through both back-ends (cheap: no mutants): nesting, starred nested super-sequences, repeated ports
-    for k in range(60 if tier == "quick" else 1500):
+    for k in range(60 if tier == "quick" else 1200):
         b = progen.gen_component_bundle(rng, size=rng.choice([6, 10, 14])) if rng.random() < 0.5 else \
             progen.gen_system_bundle(rng, depth=rng.randint(1, 3), size=5, n_templates=2)
         if b is None:
